@@ -66,13 +66,45 @@ def list_texts(case):
     return [("-" if e.get("exclude") else "") + rule_text(e.get("rule")) for e in case.get("entries", [])]
 
 
-def classify(case):
-    """input class of a failing list case -> violation key (known_findings suppress by key)"""
+OPEN_QUOTE = lambda i: i["k"] == "quote" and not i.get("closed")   # noqa: E731
+SETFLAGS = lambda i: i["k"] == "setflags"                           # noqa: E731
+
+
+def features(case):
     rules = [e.get("rule") for e in case.get("entries", [])]
-    if any(has_kind(r, lambda i: i["k"] == "quote" and not i.get("closed")) for r in rules):
-        return "unterminated-quote-changes-other-rules"
-    if any(has_kind(r, lambda i: i["k"] == "setflags") for r in rules):
-        return "inline-flag-leaks-into-other-rules"
+    return (any(has_kind(r, OPEN_QUOTE) for r in rules), any(has_kind(r, SETFLAGS) for r in rules))
+
+
+def neutralise(rule, what):
+    """copy of a rule with every unterminated quote closed (what='quote') or every bare (?flags) removed (what='flags')"""
+    out = []
+    for it in rule or []:
+        it = dict(it)
+        if what == "flags" and it["k"] == "setflags":
+            out.append({"k": "group", "g": "NonCap", "body": []})    # (?:) — matches like (?i) on its own, sets nothing
+            continue
+        if what == "quote" and it["k"] == "quote":
+            it["closed"] = True
+        if it["k"] == "group":
+            it["body"] = neutralise(it.get("body"), what)
+        if it["k"] == "rep":
+            it["x"] = neutralise([it["x"]], what)[0] if neutralise([it["x"]], what) else it["x"]
+        out.append(it)
+    return out
+
+
+def classify(case, fails=None):
+    """violation key of a failing list case (known_findings suppress by key).  With a re-run function
+    [fails] the key names a feature only when removing that feature makes the failure disappear."""
+    quote, flags = features(case)
+    if quote:
+        if fails is None or fails(dict(case, entries=[dict(e, rule=neutralise(e.get("rule"), "quote"))
+                                                      for e in case["entries"]])) is False:
+            return "unterminated-quote-changes-other-rules"
+    if flags:
+        if fails is None or fails(dict(case, entries=[dict(e, rule=neutralise(e.get("rule"), "flags"))
+                                                      for e in case["entries"]])) is False:
+            return "inline-flag-leaks-into-other-rules"
     return "list-verdict-differs-from-per-rule-evaluation"
 
 
@@ -92,25 +124,31 @@ def run_harness(ctx, hb, workdir, replay_obj=None):
     return meta, res, None
 
 
-def shrink(ctx, hb, case, budget=40):
-    """greedy delta-debugging of a failing list case: drop entries / hosts while the
-    property oracle still fails on the implementation.  Returns the reduced case."""
-    n = [0]
+class Rerun:
+    """re-runs one list case through harness + Coq; .fails(case) says whether the property oracle fails on it"""
 
-    def fails(c):
-        if n[0] >= budget:
-            return False
-        n[0] += 1
-        d = os.path.join(ctx.work, "shrink")
-        meta, res, err = run_harness(ctx, hb, d, dict(c, kind="list"))
-        if err or res.get("_errors"):
-            return False
+    def __init__(self, ctx, hb, budget):
+        self.ctx, self.hb, self.budget, self.n = ctx, hb, budget, 0
+
+    def fails(self, c, extra=0):
+        """True/False, or None when the budget is used up or the case cannot be run"""
+        if self.n >= self.budget + extra:
+            return None
+        self.n += 1
+        d = os.path.join(self.ctx.work, "shrink")
+        meta, res, err = run_harness(self.ctx, self.hb, d, dict(c, kind="list"))
+        if err or res.get("_errors") or not meta.get("shards"):
+            return None
         r = res.get(meta["shards"][0]) or {}
-        return bool(ctx.parse_nlist(r.get("P")))
+        return bool(self.ctx.parse_nlist(r.get("P")))
 
+
+def shrink(rr, case):
+    """greedy delta-debugging of a failing list case: drop entries, hosts and top-level tokens of rules
+    while the property oracle still fails on the implementation.  Returns the reduced case."""
     cur = json.loads(json.dumps(case))
     changed = True
-    while changed and n[0] < budget:
+    while changed and rr.n < rr.budget:
         changed = False
         for i in range(len(cur["entries"]) - 1, -1, -1):
             if len(cur["entries"]) <= 1:
@@ -118,14 +156,22 @@ def shrink(ctx, hb, case, budget=40):
             cand = json.loads(json.dumps(cur))
             del cand["entries"][i]
             cand["perm"] = [p if p < i else p - 1 for p in cand["perm"] if p != i]
-            if fails(cand):
+            if rr.fails(cand):
                 cur, changed = cand, True
         for h in list(cur["hosts"]):
             if len(cur["hosts"]) <= 1:
                 break
             cand = dict(cur, hosts=[x for x in cur["hosts"] if x != h])
-            if fails(cand):
+            if rr.fails(cand):
                 cur, changed = cand, True
+        for ei in range(len(cur["entries"])):
+            for ii in range(len(cur["entries"][ei].get("rule") or []) - 1, -1, -1):
+                if len(cur["entries"][ei]["rule"]) <= 1:
+                    break
+                cand = json.loads(json.dumps(cur))
+                del cand["entries"][ei]["rule"][ii]
+                if rr.fails(cand):
+                    cur, changed = cand, True
     return cur
 
 
@@ -197,17 +243,25 @@ def run(ctx):
                       False, "%d single rules on which the regexp model and Go's regexp differ; smallest: %s"
                       % (len(bad["rule"]["M"]), rule_text(c.get("rule"))))
     if bad["list"]["P"]:
-        by_key = {}
+        by_feat = {}
         for c in bad["list"]["P"]:
-            by_key.setdefault(classify(c), []).append(c)
-        for key, cs in sorted(by_key.items()):
+            by_feat.setdefault(features(c), []).append(c)
+        rr = Rerun(ctx, hb, 90) if (hb is not None and not ctx.replay) else None
+        reported = {}
+        for feat, cs in sorted(by_feat.items()):
             c = smallest(cs)
-            if hb is not None and not ctx.replay and ctx.is_known(key) is None:
-                c = shrink(ctx, hb, c)
+            if rr is not None:
+                c = shrink(rr, c)
+            key = classify(c, (lambda x: rr.fails(x, extra=10)) if rr is not None else None)
+            if key in reported and len(json.dumps(reported[key][0])) <= len(json.dumps(c)):
+                reported[key] = (reported[key][0], reported[key][1] + len(cs))
+            else:
+                reported[key] = (c, len(cs) + (reported[key][1] if key in reported else 0))
+        for key, (c, n) in sorted(reported.items()):
             ctx.violation(key, dict(c, kind="list", texts=list_texts(c)), True,
                           "%d rule lists on which the matcher's answer differs from per-rule evaluation by Go's regexp "
                           "(union of includes minus excludes, any order, Inverse = negation); smallest: %s hosts %s"
-                          % (len(cs), list_texts(c), json.dumps(c.get("hosts"))[:200]))
+                          % (n, list_texts(c), json.dumps(c.get("hosts"))[:200]))
     elif bad["list"]["M"]:
         c = smallest(bad["list"]["M"])
         ctx.violation("list-correspondence",
